@@ -2,6 +2,8 @@ import Amshan.Model.Fcs
 import Amshan.Model.Hdlc
 import Amshan.Model.HdlcObs
 import Amshan.Spec.Rfc1662
+import Amshan.Model.HdlcDefs
+import Amshan.Model.P1Obs
 /-
   Line-protocol driver: one request per line on stdin, one answer per line on stdout.
   Imports models and executable specs only (never Props / Lemmas / Mathlib).
@@ -52,6 +54,77 @@ def opHdlcRead : List String → String
     | _, _ => "bad-args"
   | _ => "bad-args"
 
+
+/-- frame descriptor: fmt,seg,dsthex,srchex,ctl,infohex,fill -/
+def frameDescOf? (s : String) : Option (HdlcSpec.FrameDesc × Nat) :=
+  match s.splitOn "," with
+  | [fmt, seg, dst, src, ctl, info, fill] =>
+    match fmt.toNat?, octetsOfHex? dst, octetsOfHex? src, ctl.toNat?, octetsOfHex? info, fill.toNat? with
+    | some fmt, some dst, some src, some ctl, some info, some fill =>
+      some ({ fmt := fmt, seg := seg == "1", dst := dst, src := src, ctl := ctl, info := info }, fill)
+    | _, _, _, _, _, _ => none
+  | _ => none
+
+def splitAtCuts (xs : List Nat) (cuts : List Nat) : List (List Nat) :=
+  let rec go (xs : List Nat) (prev : Nat) : List Nat → List (List Nat)
+    | [] => [xs]
+    | c :: cs => (xs.take (c - prev)) :: go (xs.drop (c - prev)) c cs
+  go xs 0 cuts
+
+def cutsOf? (s : String) : Option (List Nat) :=
+  if s == "." then some [] else (s.splitOn ",").mapM String.toNat?
+
+/-- hdlc.clean s a noisehex frames closing cuts  (frames: descriptors joined by ';', "." = none) -/
+def opHdlcClean : List String → String
+  | [s, a, noise, frames, closing, cuts] =>
+    let fsO : Option (List (HdlcSpec.FrameDesc × Nat)) :=
+      if frames == "." then some [] else (frames.splitOn ";").mapM frameDescOf?
+    match cfgOf? s a, octetsOfHex? noise, fsO, closing.toNat?, cutsOf? cuts with
+    | some cfg, some noise, some fs, some closing, some cuts =>
+      let w := HdlcSpec.wire cfg.stuffing noise fs closing
+      let chunks := splitAtCuts w cuts
+      let out := (Hdlc.readAll cfg Hdlc.Reader.init chunks).2.flatten
+      let spec := fs.map (fun p => Hdlc.expectedFrame p.1)
+      let dom := fs.all (fun p => decide p.1.WF && decide (1 ≤ p.2) && decide (HdlcSpec.InDomain cfg.stuffing cfg.abort p.1))
+        && decide (1 ≤ closing) && decide (HdlcSpec.flag ∉ noise) && decide (Octets noise)
+      s!"{hexOfOctets w} | {Hdlc.renderFrames out} | {Hdlc.renderFrames spec} | {bool01 dom} | {String.intercalate "," (chunks.map hexOfOctets)}"
+    | _, _, _, _, _ => "bad-args"
+  | _ => "bad-args"
+
+def opP1Read : List String → String
+  | [chunks] =>
+    match chunksOf? chunks with
+    | some chs => String.intercalate " ; " (P1.readAllRender P1.Reader.init chs)
+    | none => "bad-args"
+  | _ => "bad-args"
+
+def opP1Readout : List String → String
+  | [hex] =>
+    match octetsOfHex? hex with
+    | some bs =>
+      match P1.Readout.make bs with
+      | .ok r => r.render
+      | .error e => "EXC " ++ e.name
+    | none => "bad-args"
+  | _ => "bad-args"
+
+def opP1Ident : List String → String
+  | [hex] =>
+    match octetsOfHex? hex with
+    | some s =>
+      match P1.identMatch s with
+      | some m => hexOfOctets m.manid ++ "/" ++ optHex m.ident
+      | none => "nomatch"
+    | none => "bad-args"
+  | _ => "bad-args"
+
+def opInt16 : List String → String
+  | [hex] =>
+    match octetsOfHex? hex with
+    | some s => P1.excOr toString (Py.intBase16 s)
+    | none => "bad-args"
+  | _ => "bad-args"
+
 def dispatch (line : String) : String :=
   match (line.trimAscii.toString.splitOn " ").filter (· ≠ "") with
   | [] => "bad-op"
@@ -61,6 +134,11 @@ def dispatch (line : String) : String :=
     | "fcs.msg" => opFcsMsg args
     | "fcs.table" => opFcsTable args
     | "hdlc.read" => opHdlcRead args
+    | "hdlc.clean" => opHdlcClean args
+    | "p1.read" => opP1Read args
+    | "p1.readout" => opP1Readout args
+    | "p1.ident" => opP1Ident args
+    | "py.int16" => opInt16 args
     | "ping" => "pong"
     | _ => "bad-op"
 
